@@ -224,6 +224,72 @@ theorem F4_content_length_sound (v : Bytes) (n : Nat) (h : parseContentLength v 
   have hp := (parseCLElems_sound _ none n h).1 e he
   exact ⟨hp, parseFullUInt_sound 10 _ n hp⟩
 
+/-- **F4a′ (numbers are unbounded values, overflow is an explicit reject).** `parseFullUInt` - the model of `std::from_chars`
+(client) and of the all-digits test + `std::stoull` (server Content-Length) - is stated over digit strings of ANY length and
+natural numbers, never over a machine word that could wrap: if it accepts, the result IS the value of the digit string
+(most significant digit first, `Spec.tokValue`, unbounded) and that value is below 2^64; conversely a digit string whose value is
+`>= 2^64` is rejected - whatever that value is congruent to modulo 2^64. -/
+theorem F4_number_is_unbounded_value (base : Nat) (s : Bytes) :
+    (∀ n, parseFullUInt base s = some n → Spec.tokValue base s = some n ∧ n < 2 ^ 64) ∧
+    (∀ v, Spec.tokValue base s = some v → 2 ^ 64 ≤ v → parseFullUInt base s = none) := by
+  have key : ∀ (t : Bytes) (acc n : Nat), parseDigits base t acc = some n → Spec.tokFold base t acc = some n := by
+    intro t
+    induction t with
+    | nil => intro acc n h; simpa [parseDigits, Spec.tokFold] using h
+    | cons c cs ih =>
+      intro acc n h
+      simp only [parseDigits] at h
+      simp only [Spec.tokFold]
+      cases hd : digitVal base c with
+      | none => rw [hd] at h; cases h
+      | some v =>
+        rw [hd] at h
+        simp only at h ⊢
+        split at h
+        · exact ih _ _ h
+        · cases h
+  have h1 : ∀ n, parseFullUInt base s = some n → Spec.tokValue base s = some n ∧ n < 2 ^ 64 := by
+    intro n h
+    refine ⟨?_, (parseFullUInt_sound base s n h).2.2⟩
+    unfold parseFullUInt at h
+    unfold Spec.tokValue
+    split at h
+    · cases h
+    · rename_i hne
+      simp only [hne, Bool.false_eq_true, ↓reduceIte]
+      exact key s 0 n h
+  refine ⟨h1, ?_⟩
+  intro v hv hge
+  cases hp : parseFullUInt base s with
+  | none => rfl
+  | some n =>
+    have := h1 n hp
+    rw [hv] at this
+    have hvn : v = n := by simpa using this.1
+    omega
+
+open Iora.Http.Srv in
+/-- the text of the seeded change: `18446744073709551621` = 2^64 + 5 is an all-digit string whose value is congruent to 5; it
+is NOT the length 5 - both endpoints reject it (client: framing error; server: the header scan closes the connection), as they
+do `36893488147419103237` = 2·2^64 + 5 and the 25-digit `1000000000000000000000005`; the hex `10000000000000005` = 2^64 + 5 is
+malformed as a chunk size on both endpoints; while a small value with more than 20 digits of leading zeros is VALID and is
+accepted exactly -/
+example : Spec.tokValue 10 (ascii "18446744073709551621") = some (2 ^ 64 + 5) ∧
+    parseFullUInt 10 (ascii "18446744073709551621") = none ∧
+    (parseContentLength (ascii "18446744073709551621")).toOption = none ∧
+    scanHeaderLines [ascii "Content-Length: 18446744073709551621"] {} = none ∧
+    scanHeaderLines [ascii "Content-Length: 36893488147419103237"] {} = none ∧
+    scanHeaderLines [ascii "Content-Length: 1000000000000000000000005"] {} = none ∧
+    sizeLine (ascii "10000000000000005\r\nhello") 1048576 0 = .bad ∧
+    Srv.sizeLine 10485760 (ascii "10000000000000005") = none ∧
+    (parseContentLength (ascii "000000000000000000000005")).toOption = some 5 ∧
+    scanHeaderLines [ascii "Content-Length: 000000000000000000000005"] {} =
+      some { contentLength := 5, haveCL := true, isChunked := false, haveTE := false } ∧
+    sizeLine (ascii "00000000000000000000005\r\nhello") 1048576 0 = .ok 5 25 ∧
+    Srv.sizeLine 10485760 (ascii "00000000000000000000005") = some 5 :=
+  ⟨by decide, by decide, by decide, by decide, by decide, by decide, by decide, by decide, by decide, by decide, by decide,
+    by decide⟩
+
 /-- **F4b (the framing decision never guesses).** `determineFraming` answers "Content-Length framing with length `n`" only if
 there is NO Transfer-Encoding field, the Content-Length value is valid (F4a) with value `n`, and `n` is within the cap. -/
 theorem F4_framing_sound (method : Bytes) (resp : Resp) (cap n : Nat)
@@ -488,6 +554,14 @@ after every request, so `headerEnd`, the header-size limit, the chunk-scan start
 start of the CURRENT request (`extractOne`/`drainLoop`).  A loop that walks the buffer with a running offset, or any other
 change to what an offset is relative to, makes this fail to build. -/
 theorem gen_extract_loop : Gen.Http.serverExtractLoop = Srv.extractLoopModelled := by decide
+
+set_option maxRecDepth 4096 in
+/-- **Gen conformance (length parsers).** The statement skeletons of the four length conversions regenerated from the working
+tree - the server's Content-Length (all-digits test, `std::stoull`, `catch (...)`, limit), the client's `parseFullUInt`
+(`std::from_chars`, `errc`, end pointer), `parseContentLength`, the client's chunk size (`parseFullUInt` + cap) and the server's
+chunk-size digit loop (limit check right after every shift) - are the ones the models' number parsers were written from.
+Replacing a conversion by an unchecked accumulator loop (which computes the value modulo 2^64) makes this fail to build. -/
+theorem gen_number_parsers : Gen.Http.numberParsers = Srv.numberParsersModelled := by decide
 
 open Iora.Http.Srv in
 /-- **S3a (bounded buffer).** The session buffer never exceeds `MAX_BUFFER_SIZE`; a read that would exceed it closes the
